@@ -301,7 +301,7 @@ func main() {
 	ncases := 130
 	workers, perWorker, concEmit := 6, 150, 300
 	if tier == "thorough" {
-		ncases = 2600
+		ncases = 2000
 		workers, perWorker, concEmit = 8, 1500, 3000
 	}
 
@@ -327,6 +327,13 @@ func main() {
 		for k := 0; k < steps && !b.panicked && b.desync == ""; k++ {
 			if k > 0 && b.rnd.Pct(45) {
 				s.mutateTree()
+			}
+			if b.rnd.Pct(40) && len(s.routes) > 0 {
+				// other users of the pool (resetNil paths, matcher sub-contexts) stir it between requests
+				r := hx.Pick(b.rnd, s.routes)
+				_ = s.f.Has(r.method, r.t.pattern(r.i))
+				_, _ = s.f.Reverse(r.method, "", r.t.path(r.i, []string{"x", "y", "z"}))
+				b.kinds["pool-stir:Has+Reverse"]++
 			}
 			if b.rnd.Pct(80) {
 				s.request(hx.Pick(b.rnd, []string{"direct", "direct", "tsr", "tsr", "othermethod", "options", "noroute"}))
